@@ -31,12 +31,12 @@ def coal_records(ctx, rng, nid):
     from dadi import Numerics, PhiManip, Integration, Spectrum, Demographics1D
     recs = []
     tfs = [1e-3, 5e-4, 1e-4] if ctx.quick else [1e-3, 5e-4, 2.5e-4, 1e-4]
-    ncase = 6 if ctx.quick else 60
+    ncase = 5 if ctx.quick else 60
     old_tf = Integration.timescale_factor
     try:
         for c in range(ncase):
             nep = rng.choice([1, 2, 2, 3, 4])
-            budget = 6.0 if ctx.quick else 40.0        # bound on sum T/nu, i.e. on the number of time steps
+            budget = 3.0 if ctx.quick else 40.0        # bound on sum T/nu, i.e. on the number of time steps
             hist = []
             for e in range(nep):
                 nu = math.exp(rng.uniform(math.log(0.05), math.log(20)))
